@@ -65,13 +65,24 @@ func idx(i int) string { return string(rune('1' + i)) }
 
 // verifSchedule builds an arbitrary schedule of n periods with the given kinds: symbolic start, end times
 // (millisecond aligned), amounts in [0,10^36], multipliers in [0,1], steps in [1s, 10^9 s].
+// The first sequence id need not be 1 (validation only asks for a positive first id and consecutive ids; governance may
+// prune finished periods): vFirstId is chosen per path by verifSchedule, verifSeq(i) is the id of the i-th period.
+var vFirstId uint32 = 1
+
+// vFirstIds: the first ids a harness explores (concrete fork; store keys built from the id stay concrete). Harnesses that
+// depend on how the current period is looked up widen it to {1, 4}.
+var vFirstIds = []uint32{1}
+
+func verifSeq(i int) uint32 { return vFirstId + uint32(i) }
+
 func verifSchedule(n int, kinds []int) verifSched {
+	vFirstId = vFirstIds[verif_choice("firstSequenceId", len(vFirstIds))]
 	start := verif_time_unit("start", 1000000, vT0, vT1)
 	p := types.Params{MintDenom: "uc4e", StartTime: start}
 	s := verifSched{kinds: kinds}
 	prev := start
 	for i := 0; i < n; i++ {
-		m := &types.Minter{SequenceId: uint32(i + 1)}
+		m := &types.Minter{SequenceId: verifSeq(i)}
 		if i < n-1 {
 			e := verif_time_unit("end"+idx(i), 1000000, vT0, vT1)
 			m.EndTime = &e
